@@ -14,6 +14,7 @@ type caseResult struct {
 	maxLate    int64
 	stalled    bool
 	earlyExit  bool
+	events     int64
 }
 
 func earlyExitWaves(h hostResult) int {
@@ -64,6 +65,7 @@ func runCase(rec vlib.Recorder, sc scenario) caseResult {
 	jt := &judge{rec: rec, sc: sc, mode: "timing", seen: map[string]bool{}, bk: bk}
 	out := runTiming(sc, bk, d, l)
 	rec.Count("engine_events", out.events)
+	res.events = out.events
 	judgeTiming(jt, out, host, l, &res)
 
 	// ---------------- emulation compute unit (reference and second subject)
